@@ -26,7 +26,7 @@ if [ $ok = 0 ]; then echo "NOT CONFIRMED"; git -C /repo worktree remove --force 
 # VERIF_REPO points the checks at it, so concurrently running work on /repo itself is not disturbed)
 res=""
 for Q in $P "$@"; do
-  o=$(cd /verif && VERIF_REPO=$WT timeout 3000 ./check $Q --tier quick 2>&1 | grep -E "^(VIOLATION|OK|KNOWN)" | head -3)
+  o=$(cd /verif && VERIF_REPO=$WT timeout 3000 ./check $Q --tier quick 2>&1 | grep -E "^(VIOLATION|OK)" | head -3)
   echo "[$Q] $o"
   res="$res [$Q] $o;"
 done
